@@ -27,7 +27,8 @@ def cases(draw, tier):
     m = rho + draw(st.integers(0, 2))
     n = [m + draw(st.integers(0, 3)) for _ in range(d)]
     return {"n": n, "r": r, "seed": draw(gen.seeds), "m": m, "cap": rho + draw(st.integers(0, 2)), "sseed": draw(st.integers(0, 10 ** 6)),
-            "scale10": draw(st.sampled_from([0, 0, 2, -2])), "float_cap": draw(st.booleans())}
+            "scale10": draw(st.sampled_from([0, 0, 2, -2])), "float_cap": draw(st.booleans()),
+            "seed_kind": draw(st.sampled_from(["int", "int", "generator", "generator_philox"]))}
 
 
 def prop(case, ctx):
@@ -41,7 +42,12 @@ def prop(case, ctx):
     rho = max(r)
     ctx.label(f"d={d}", f"rho={rho}", f"m-rho={case['m'] - rho}", f"cap-rho={case['cap'] - rho}")
     ctx.nontrivial(rho >= 2)
-    I, idx, idx_many = ctx.lib(teneva.sample_tt, n, case["m"], case["sseed"])
+    # the sample generator may be seeded by an int, by a Generator object (then every LHS block draws fresh numbers from it,
+    # so prefixes of consecutive blocks are NOT nested)
+    kind = case.get("seed_kind", "int")
+    ctx.label("seed:" + kind)
+    sseed = {"int": case["sseed"], "generator": np.random.default_rng(case["sseed"]), "generator_philox": np.random.Generator(np.random.Philox(case["sseed"]))}[kind]
+    I, idx, idx_many = ctx.lib(teneva.sample_tt, n, case["m"], sseed)
     ctx.check(I.ndim == 2 and I.shape[1] == d and I.min() >= 0 and bool(np.all(I.max(axis=0) == np.array(n) - 1)), "sample_tt: indices do not span the shape")
     y = F[tuple(I.T)]
     cap = case["cap"] + (0.5 if case["float_cap"] else 0)
